@@ -435,4 +435,65 @@ theorem restartQ_counters {dir : String} {s : St} {m : BSpec} {dead : Bool} (hq 
     rw [hopen']
     exact ⟨_, gm ++ hi g n, rfl, hinv', Or.inr ⟨md, gm, maxFid, hi g n, hmdd, hmk, hmm, hM, rfl, hmax2, hmax1, rfl, rfl⟩⟩
 
+/-! ## when is there something to adopt -/
+
+/-- a successful `Merge` leaves a merge directory WITH a marker, a failed one a merge directory
+    WITHOUT -/
+theorem mergeQ_marker {dir : String} {s : St} {m : BSpec} {dead : Bool} (hq : HInvQ dir s m dead)
+    (order : List Nat) (ho : order.Nodup) (hsmall : ∀ db, s.db = some db → db.activeId + 1 < 2 ^ 32) :
+    ((merge s order).2 = .ok →
+      ∃ md, (merge s order).1.world.get (mergeDirName dir) = some md ∧ md.marker ≠ none) ∧
+    ((∃ e, (merge s order).2 = .err e) → NoMarker (merge s order).1.world dir) := by
+  obtain ⟨db, hs, _⟩ := hq.2
+  obtain ⟨db0, g, hs0, hd0, hi0, _⟩ := hq.1
+  rw [setB_db hs] at hs0
+  cases hs0
+  have hdir : (setBDB none db).dir = dir := hd0
+  obtain ⟨_, _, _, _, h5, _, h7⟩ := merge_spec (setB_db hs none) hi0 order ho (hsmall db hs)
+  have e : merge s order = (setB db.batch (merge (setB none s) order).1, (merge (setB none s) order).2) := by
+    conv => lhs; rw [← setB_restore hs]
+    exact merge_setB _ _ _
+  rw [e, hdir] at *
+  refine ⟨fun hok => ?_, fun ⟨er, her⟩ => ?_⟩
+  · obtain ⟨gm, vis, hmo⟩ := h7 hok
+    obtain ⟨md, hmd, _, _, hmk⟩ := hmo.mdir
+    exact ⟨md, hmd, by rw [hmk]; simp⟩
+  · obtain ⟨md, hmd, hmk⟩ := h5 er her
+    intro md' hmd'
+    have : (merge (setB none s) order).1.world.get (mergeDirName dir) = some md' := hmd'
+    rw [hmd] at this
+    cases this
+    exact hmk
+
+/-- after a restart nothing is adoptable -/
+theorem restartQ_nomarker {dir : String} {s : St} {m : BSpec} {dead : Bool} (hq : HInvQ dir s m dead)
+    (cfg' : Cfg) (hcfg : cfg'.Valid)
+    (hsz : ∀ md, s.world.get (mergeDirName dir) = some md → md.marker ≠ none →
+      ∀ x ∈ md.data, x.2.bytes.size < 2 ^ 32) :
+    NoMarker (openDB (close s).1 dir cfg').1.world dir := by
+  · obtain ⟨db, hs, _⟩ := hq.2
+    obtain ⟨db0, g, hs0, hd0, hi0, _, hms0, _⟩ := hq.1
+    rw [setB_db hs] at hs0
+    cases hs0
+    have hdir : db.dir = dir := hd0
+    subst hdir
+    have hcl : close (setB none s) = close s := close_setB none s
+    rcases hms0 with hnm | ⟨n0, gm0, vis0, hmo0⟩
+    · obtain ⟨d, _, _, hopen⟩ := restart_scanX cfg' (setB_db hs none) hi0 hnm.plan hcfg
+      rw [hcl] at hopen
+      have hopen' : openDB (close s).1 db.dir cfg'
+          = (⟨s.world.set db.dir ⟨syncAll d.data, d.hint, d.marker, true⟩, some (scanDB cfg' db.dir db.activeId g)⟩, .ok) := hopen
+      rw [hopen']
+      exact hnm.congr (MergeP.get_set_ne _ _ _ _ (mname_ne db.dir))
+    · have hF := HintFits_of_sizes hmo0 hsz
+      obtain ⟨d, md, maxFid, W', _, _, _, _, _, hopen, _, hWm, _⟩ :=
+        restart_adoptX cfg' (setB_db hs none) hi0 hmo0 hF hcfg
+      rw [hcl] at hopen
+      have hopen' : openDB (close s).1 db.dir cfg'
+          = (⟨W', some (hintDB cfg' db.dir db.activeId (gm0 ++ hi g n0) (sizeSum (logOf (hi gm0 maxFid))))⟩, .ok) := hopen
+      rw [hopen']
+      intro md' hmd'
+      have : W'.get (mergeDirName db.dir) = none := hWm
+      rw [this] at hmd'; cases hmd'
+
 end XixiKV.C17H
